@@ -11,6 +11,14 @@ CLAIMED = {
              'element values symbolic; per array length n <= 3 (quick) / 5 (thorough) every feasible path is decided by z3 against python slice semantics: throw-iff-stated, count, element identity, '
              'no other cell written, copy-first behaviour on overlap, copies of slice objects; loads/stores at symbolic offsets carry bounds obligations; UB findings are confirmed under ASan/UBSan.',
              note='Array length enumerated up to the bound (constructor index arithmetic checked for all n >= 0 except the count quotient); element values modelled as reals; trusts clang IR == g++ build (differential self-test), symir, z3.'),
+ 'C01': dict(design='4/C01', text='Per transform length (quick: every n in 1..42 plus 43, 48, 64; real/rfft/plan/pad-truncate/czt variants) the compiled code runs once with all samples symbolic; '
+             'z3 QF_LRA certifies per output that the code is a fixed rational matrix for every input, and the exact Frobenius distance of that matrix to the 50-digit DFT / chirp-z matrix is '
+             'within half of 32*n*eps*sqrt(n): the relative-l2 statement then holds for every input up to data-path rounding. Violations are replayed natively on the worst-case input direction.',
+             note='REAL arithmetic for the data path (rounding outside the claim, twiddle/chirp table error inside); lengths above the bound not covered; czt accuracy stated relative to ||R||_F/sqrt(n).'),
+ 'C02': dict(design='4/C02', text='Same P-LIN certification for ifft / IfftPlan / ifft(fft(x)) (vs inverse DFT / identity, half of 64*n*eps), irfft in both input forms and irfft(rfft(x)) for every even n <= 48 (quick), '
+             'odd n: the single path must end in a throw with all memory obligations met; istft(stft(x)) for every (window, overlap, nfft, range, method) tuple of the grid that the real iscola accepts: '
+             'composite map certified linear, rows with non-zero accumulated weight equal unit rows, no output divides by a zero constant.',
+             note='REAL arithmetic; irfft input assumed to be the spectrum of a real signal (Im X0 = Im X_{n/2} = 0); non-zero weight means > 1e-6 of the maximum weight.'),
 }
 ALL = [json.loads(l)['id'] for l in open(os.path.join(V, 'properties.jsonl'))]
 NA_REASON = {}
